@@ -167,6 +167,8 @@ class StreamingHandler(AsyncCallbackHandler, AsyncIterator):
                         # We push that as well.
                         if len(self.completion) > len(prev_completion):
                             self.current_chunk = self.completion[len(prev_completion) :]
+                            # The new part is added back to the completion when processed.
+                            self.completion = prev_completion
                             await self.push_chunk(None)
 
                         # And we stop the streaming
@@ -216,11 +218,16 @@ class StreamingHandler(AsyncCallbackHandler, AsyncIterator):
                 self.current_chunk = self.current_chunk[len(self.prefix) :]
                 self.prefix = None
 
-                # If we're left with something, we "forward it".
-                if self.current_chunk:
-                    await self._process(self.current_chunk)
-                    self.current_chunk = ""
-        elif self.suffix or self.stop:
+                # If we're left with something, we "forward it" (it still has to go
+                # through the suffix/stop logic below).
+                if not self.current_chunk:
+                    return
+                chunk = self.current_chunk
+                self.current_chunk = ""
+            else:
+                return
+
+        if self.suffix or self.stop:
             # If we have a suffix, we always check that the total current chunk does not end
             # with the suffix.
 
@@ -309,6 +316,9 @@ class StreamingHandler(AsyncCallbackHandler, AsyncIterator):
         **kwargs: Any,
     ) -> None:
         """Run when LLM ends running."""
+        # A prefix that was not found by now will not be found anymore.
+        self.prefix = None
+
         if self.current_chunk:
             if self.suffix and self.current_chunk.endswith(self.suffix):
                 self.current_chunk = self.current_chunk[: -1 * len(self.suffix)]
